@@ -90,6 +90,17 @@ def run(run):
                 r = [strip(x) for x in Expr(prog, c).returns()]
                 if len(r) == 1 and r[0][0] == "call" and r[0][1] == se and strip(r[0][2][0]) == ("param", 2, ()):
                     ok = True
+            if not ok:
+                # the loop form: `for span in spans { let endorse = span.endorse(); .. }`: a call of Span::endorse in the
+                # function itself whose receiver is the item of the iteration over the spans
+                pex = Expr(prog, p)
+                for _, t2 in prog.calls(p):
+                    if Program.callee_name(t2) == se and t2["args"]:
+                        recv = strip(pex.operand(t2["args"][0]))
+                        if recv[0] == "field" and "@Some" in recv[2] and strip(recv[1])[0] == "call" and strip(recv[1])[1].endswith("Iterator>::next") and \
+                                mentions(recv, lambda z: z[0] == "call" and (z[1] == vsf or z[1].endswith("Into<U>>::into"))) and \
+                                not mentions(recv, lambda z: z[0] == "call" and re.search(r"Iterator::(filter|skip|take|step_by|zip|chain)$", z[1])):
+                            ok = True
             sl = prog.slicer(p)
             uses = sl.forward_uses(t["dst"]["l"])
             only_iter = all(u.get("k") == "call" and re.search(r"IntoIterator>::into_iter$|into_iter$", Program.callee_name(u)) for u, _ in uses) and bool(uses)
